@@ -1,4 +1,4 @@
-import AfkakProofs.Consumer.Inv2
+import AfkakProofs.Consumer.InvC
 /-!
 # `G` is preserved by message processing, `stop()`, `shutdown()`, and by every event
 -/
@@ -55,7 +55,7 @@ theorem procLeave_good {cfg : Cfg} {s0 s : St} (hs : G cfg s) (rest' : List Msg)
       · simp
 
 section
-variable {cfg : Cfg} {inner : Ops} (hin : OpsPres cfg inner)
+variable {cfg : Cfg} {inner : Ops} (hin : OpsPres cfg inner) (hc : OpsPN Calm inner)
 include hin
 
 theorem procActs_good (acts : List Act) {s0 s : St} (h : Good cfg s0 s) : Good cfg s0 (procActs inner acts s) :=
@@ -161,30 +161,41 @@ theorem deliverBlock_good (msgs : List Msg) {s0 s : St} (h : Good cfg s0 s) (hp 
       · leaf h2
       · exact h2
 
-theorem fetchBody_good (via : Bool) (r : Reply) {s0 s : St} (h : Good cfg s0 s) (hp : s.proc = none) (hf : s.frame = none) :
-    Good cfg s0 (fetchBody cfg inner via r s) := by
-  unfold fetchBody
+include hc in
+/-- `_handle_fetch_response` after `self._request_d = None` -/
+theorem fetchTail_good (via : Bool) (r : Reply) {s0 s : St} (h : Good cfg s0 s) (hp : s.proc = none) (hf : s.frame = none)
+    (hq : activeReq s.requestD = none) (hpk : s.parked = none) : Good cfg s0 (fetchTail cfg inner via r s) := by
+  unfold fetchTail
   simp only []
-  have h1 : Good cfg s0 { s with requestD := .none, fetchOffset := (extract s.fetchOffset r.msgs).2 } := by leaf h
+  have h1 : Good cfg s0 { s with fetchOffset := (extract s.fetchOffset r.msgs).2 } := by leaf h
   split
   · exact (retryFetch_pres cfg _).step (deliverBlock_good hin _ h1 hp hf)
   · split
     · exact (retryFetch_pres cfg _).step (deliverBlock_good hin _ (by leaf h) hp hf)
     · have h2 := (startErrback_pres cfg .tooSmall).step h1
-      obtain ⟨k1, _, _, _⟩ := startErrback_keeps .tooSmall { s with requestD := .none, fetchOffset := (extract s.fetchOffset r.msgs).2 }
+      obtain ⟨k1, _, _, _⟩ := startErrback_keeps .tooSmall { s with fetchOffset := (extract s.fetchOffset r.msgs).2 }
       have h3 := deliverBlock_good hin (extract s.fetchOffset r.msgs).1 h2 (k1.trans hp) (by rw [h2.2, ← h.2]; exact hf)
       split
-      · exact (handleFetchError_pres cfg _).step h3
+      · have hk := startErrback_keeps .tooSmall { s with fetchOffset := (extract s.fetchOffset r.msgs).2 }
+        have hcm := deliverBlock_calm (cfg := cfg) hc (extract s.fetchOffset r.msgs).1 _
+          (calm_ok.upd (s := { s with fetchOffset := (extract s.fetchOffset r.msgs).2 }) ⟨hp, hq, hpk⟩ hk)
+        exact handleFetchError_good cfg _ h3 hcm.1 hcm.2
       · exact h3
   · have h3 := deliverBlock_good hin (extract s.fetchOffset r.msgs).1 h1 hp hf
     split
     · exact h3
-    · exact (handleFetchError_pres cfg _).step h3
+    · have hcm := deliverBlock_calm (cfg := cfg) hc (extract s.fetchOffset r.msgs).1
+        { s with fetchOffset := (extract s.fetchOffset r.msgs).2 } ⟨hp, hq, hpk⟩
+      exact handleFetchError_good cfg _ h3 hcm.1 hcm.2
 
-/-- `_handle_fetch_response` (top level: the processor is not executing) -/
-theorem handleFetchResponse_good (k : Nat) (r : Reply) {s : St} (hs : G cfg s) (hf : s.frame = none) :
-    Good cfg s (handleFetchResponse cfg inner k r s) := by
+include hc in
+/-- `_handle_fetch_response` for the event `fetchOk k r` (top level: the processor is not executing) -/
+theorem handleFetchResponse_good (k : Nat) (r : Reply) (c : Bool) {s : St} (hs : G cfg s) (hf : s.frame = none)
+    (hlc : (runR C03.ackStep {} s.out).lc = s.lastCommitted) (hreq : s.requestD = .pending k .fetch c) :
+    Good cfg s (handleFetchResponse cfg inner k r { s with out := .ev (.fetchOk k r) :: s.out }) := by
   have hx := Good.refl hs
+  have hact : (runR C02.sfStep {} s.out).req = (if c then none else some k) := by
+    rw [hs.sf.sfReq, hreq]; cases c <;> rfl
   unfold handleFetchResponse
   split
   · leaf hx
@@ -196,8 +207,14 @@ theorem handleFetchResponse_good (k : Nat) (r : Reply) {s : St} (hs : G cfg s) (
         cases hpp : s.proc with
         | none => rfl
         | some g => exact absurd (hs.g1.procBlock (by rw [hpp]; rfl)) hb
-      exact fetchBody_good hin false r (by leaf hx) hp hf
+      have hpk : s.parked = none := by
+        cases hpp : s.parked with
+        | none => rfl
+        | some r' => exact absurd (hs.sf.parkedBlock (by rw [hpp]; rfl)) hb
+      unfold fetchBody
+      exact fetchTail_good hin hc false r (by leaf hx) hp hf rfl hpk
 
+include hc in
 /-- the end of `_process_messages` when resumed -/
 theorem finishFull_good {s0 s : St} (h : Good cfg s0 s) (hp : s.proc = none) (hf : s.frame = none) :
     Good cfg s0 (finishFull cfg inner s) := by
@@ -206,16 +223,19 @@ theorem finishFull_good {s0 s : St} (h : Good cfg s0 s) (hp : s.proc = none) (hf
   · have hf0 : s0.frame = none := by rw [← h.2]; exact hf
     simp only []
     split
-    · split
+    · rename_i r hr
+      obtain ⟨kp, hpk⟩ := h.1.sf.parkedReq (by rw [hr]; rfl)
+      split
       · leaf h
-      · exact fetchBody_good hin true _ (by leaf h) hp hf
+      · unfold fetchBody
+        exact fetchTail_good hin hc true _ (by leaf h) hp hf rfl rfl
     · leaf h
   · exact h
-
 
 /-- The processor's Deferred fires (`x` = the trace item that says so: the event, or `procCancel`). -/
 theorem procFired_good (g : Gen) (r : Option Fail) (x : Item) {s : St} (hs : G cfg s) (hp : s.proc = some g)
     (hb : s.msgBlock = true ∨ s.stopping = true)
+    (hlc : x = .ob .procCancel ∨ (runR C03.ackStep {} s.out).lc = s.lastCommitted)
     (hx : (r = none ∧ x = .ev .procOk) ∨ (r.isSome ∧ ((∃ k t, x = .ev (.procErr k t)) ∨ x = .ob .procCancel))) :
     Good cfg s (procFired cfg g r { s with out := x :: s.out }) ∧
       (procFired cfg g r { s with out := x :: s.out }).proc = none ∧
@@ -227,6 +247,10 @@ theorem procFired_good (g : Gen) (r : Option Fail) (x : Item) {s : St} (hs : G c
   | none =>
     obtain ⟨-, rfl⟩ | ⟨h, -⟩ := hx
     · simp only []
+      have hlc' : (runR C03.ackStep {} s.out).lc = s.lastCommitted := by
+        rcases hlc with h | h
+        · cases h
+        · exact h
       have h1 : Good cfg s { ({ s with out := Item.ev Ev.procOk :: s.out } : St) with proc := none, lastProcessed := some g.last } := by leaf h0
       obtain ⟨k1, k2, k3, _⟩ := autoCommit_keeps cfg true { ({ s with out := Item.ev Ev.procOk :: s.out } : St) with proc := none, lastProcessed := some g.last }
       exact ⟨(autoCommit_pres cfg true).step h1, k1, hb.imp (fun h => k3.trans h) (fun h => k2.trans h)⟩
@@ -236,23 +260,32 @@ theorem procFired_good (g : Gen) (r : Option Fail) (x : Item) {s : St} (hs : G c
     · simp at h
     · simp only []
       have h1 : Good cfg s { ({ s with out := x :: s.out } : St) with proc := none } := by
-        obtain ⟨k, t, rfl⟩ | rfl := hx <;> leaf h0
+        obtain ⟨k, t, rfl⟩ | rfl := hx
+        · have hlc' : (runR C03.ackStep {} s.out).lc = s.lastCommitted := by
+            rcases hlc with h | h
+            · cases h
+            · exact h
+          leaf h0
+        · leaf h0
       obtain ⟨k1, k2, k3, _⟩ := handleProcessorError_keeps f { ({ s with out := x :: s.out } : St) with proc := none }
       exact ⟨(handleProcessorError_pres cfg f).step h1, k1, hb.imp (fun h => k3.trans h) (fun h => k2.trans h)⟩
 
 /-- `stop()`: the block is dropped and the suspended generator's Deferred cancelled, together. -/
 theorem procFired_stop_good (g : Gen) (f : Fail) {s : St} (hs : G cfg s) (hp : s.proc = some g) (hst : s.stopping = true) :
-    let s1 : St := emit .procCancel { s with msgBlock := false, requestD := (if s.parked.isSome = true then .none else s.requestD), parked := none }
-    Good cfg s (procFired cfg g (some f) s1) ∧ (procFired cfg g (some f) s1).proc = none ∧
-      (procFired cfg g (some f) s1).stopping = true := by
-  intro s1
+    Good cfg s (procFired cfg g (some f) (emit .procCancel (stopBlock s))) ∧
+      (procFired cfg g (some f) (emit .procCancel (stopBlock s))).proc = none ∧
+      (procFired cfg g (some f) (emit .procCancel (stopBlock s))).stopping = true := by
   have h0 := Good.refl hs
-  have h1 : Good cfg s { s1 with proc := none } := by
-    simp only [s1, emit]
+  have hb : s.msgBlock = true := hs.g1.procBlock (by rw [hp]; rfl)
+  have h1 : Good cfg s { emit .procCancel (stopBlock s) with proc := none } := by
+    unfold stopBlock
+    simp only [hb, if_true, emit]
     leaf h0
-  obtain ⟨k1, k2, _, _⟩ := handleProcessorError_keeps f { s1 with proc := none }
-  exact ⟨(handleProcessorError_pres cfg f).step h1, k1, k2.trans hst⟩
+  obtain ⟨k1, k2, _, _⟩ := handleProcessorError_keeps f { emit .procCancel (stopBlock s) with proc := none }
+  have hst' : (stopBlock s).stopping = true := by unfold stopBlock; split <;> exact hst
+  exact ⟨(handleProcessorError_pres cfg f).step h1, k1, k2.trans hst'⟩
 
+include hc in
 theorem procResume_good (g : Gen) (passed : Bool) {s0 s : St} (h : Good cfg s0 s) (hp : s.proc = none)
     (hf : s.frame = none) (hb : s.msgBlock = true ∨ s.stopping = true) : Good cfg s0 (procResume cfg inner g passed s) := by
   unfold procResume
@@ -262,23 +295,25 @@ theorem procResume_good (g : Gen) (passed : Bool) {s0 s : St} (h : Good cfg s0 s
     have h3 := procLoop_good hin (g.rest.length + 1) g.rest h ⟨hp, hf, hb.imp id Or.inl⟩
     split
     · exact h3
-    · rename_i hc
+    · rename_i hcond
       have hp3 : (procLoop cfg inner (g.rest.length + 1) g.rest s).1.proc = none := by
         cases hpp : (procLoop cfg inner (g.rest.length + 1) g.rest s).1.proc with
         | none => rfl
-        | some g' => simp [hpp] at hc
-      exact finishFull_good hin h3 hp3 (by rw [h3.2, ← h.2]; exact hf)
+        | some g' => simp [hpp] at hcond
+      exact finishFull_good hin hc h3 hp3 (by rw [h3.2, ← h.2]; exact hf)
 
+include hc in
 theorem procResult_good (g : Gen) (r : Option Fail) (x : Item) {s : St} (hs : G cfg s) (hp : s.proc = some g)
     (hb : s.msgBlock = true ∨ s.stopping = true)
+    (hlc : x = .ob .procCancel ∨ (runR C03.ackStep {} s.out).lc = s.lastCommitted)
     (hx : (r = none ∧ x = .ev .procOk) ∨ (r.isSome ∧ ((∃ k t, x = .ev (.procErr k t)) ∨ x = .ob .procCancel))) :
     Good cfg s (procResult cfg inner g r { s with out := x :: s.out }) := by
   have hf : s.frame = none := by
     cases hff : s.frame with
     | none => rfl
     | some fr => exact absurd (hs.g1.frameProc (by rw [hff]; rfl)) (by rw [hp]; simp)
-  obtain ⟨g1, p1, b1⟩ := procFired_good hin g r x hs hp hb hx
-  have h2 := fun p => procResume_good hin g p g1 p1 (by rw [g1.2]; exact hf) b1
+  obtain ⟨g1, p1, b1⟩ := procFired_good hin g r x hs hp hb hlc hx
+  have h2 := fun p => procResume_good hin hc g p g1 p1 (by rw [g1.2]; exact hf) b1
   unfold procResult
   simp only []
   split
